@@ -4,7 +4,9 @@
 case = {
   "fc":     base forecaster family: score | ttf | mux (score-controlled recording forecasters, plain / inside a
             TransformedTargetForecaster / inside a MultiplexForecaster) | naive | ttfnaive | muxreal (library forecasters)
-  "search": "grid" | "rand";  "grid": [ {name: [values] | "~e" | "~s"}, ... ];  "n_iter", "rs" (rand only)
+  "search": "grid" | "rand";  "grid": [ {name: [values] | "~e" | "~s"}, ... ];  "n_iter", "rs", "rsmode" (rand only:
+            random_state = the int rs | None with np.random.seed(rs) | RandomState(rs); for the last two the candidates are
+            taken from the real run's rows as data and the oracle judges consistency)
   "cv":     {"k": "s"|"e", "fh": [...], "wl", "step", "iw", "sww"};  "n", "origin", "yseed"
   "metric": ctl (order-insensitive, reads the chosen score off the forecast) | mae | negmae | MAE | mape | none ;
             "gib": greater_is_better declared by the metric;  "strategy": refit|update
@@ -305,13 +307,41 @@ def _dists(case):
             for k_, v in case["grid"][0].items()}
 
 
+_OBS = {}
+
+
+def unpredictable(case):
+    return case["search"] == "rand" and case.get("rsmode", "int") != "int"
+
+
+def _plain(p):
+    return {k_: (int(v) if isinstance(v, (int, np.integer)) and not isinstance(v, bool) else v) for k_, v in p.items()}
+
+
+def in_support(case, p):
+    """is `p` a parameter set the distributions of a randomized search can produce"""
+    d = case["grid"][0]
+    if set(p) != set(d):
+        return False
+    for k_, v in d.items():
+        if isinstance(v, dict):
+            if not (v["randint"][0] <= p[k_] < v["randint"][1]):
+                return False
+        elif p[k_] not in v:
+            return False
+    return True
+
+
 def param_sets(case):
     """the SET of candidate parameter dicts the user asked for (order-free enumeration for grids;
     the real ParameterSampler's output for randomized search), or None if the grid is malformed"""
     if case["search"] == "rand":
+        if unpredictable(case):
+            # random_state None / a RandomState instance: the draw cannot be predicted; the candidates are the
+            # `params` of the rows of THIS case's last real run, taken as data (run_real stores them)
+            return [dict(p) for p in (_OBS.get(json.dumps(case, sort_keys=True)) or [])]
         from sklearn.model_selection import ParameterSampler
-        return [{k_: (int(v) if isinstance(v, (int, np.integer)) else v) for k_, v in p.items()}
-                for p in ParameterSampler(_dists(case), case["n_iter"], random_state=case["rs"])]
+        return [_plain(p) for p in ParameterSampler(_dists(case), case["n_iter"], random_state=case["rs"])]
     sets = []
     for d in case["grid"]:
         if any(v in ("~e", "~s") for v in d.values()):
@@ -413,6 +443,8 @@ def reference(case):
     """independent observations for every distinct parameter set: evaluate() scores of a directly constructed
     forecaster + the op sequence on directly constructed forecasters.  Memoised per case."""
     key = json.dumps(case, sort_keys=True)
+    if unpredictable(case):
+        key += "#" + json.dumps(_OBS.get(key), sort_keys=True)
     if key in _REF:
         return _REF[key]
     from sktime.forecasting.model_evaluation import evaluate
@@ -499,7 +531,9 @@ def make_tuner(case):
     base = build(case["fc"], {})
     cv = make_cv(case, True)
     if case["search"] == "rand":
-        return ForecastingRandomizedSearchCV(base, cv, _dists(case), n_iter=case["n_iter"], random_state=case["rs"],
+        mode = case.get("rsmode", "int")
+        rs = case["rs"] if mode == "int" else (None if mode == "none" else np.random.RandomState(case["rs"]))
+        return ForecastingRandomizedSearchCV(base, cv, _dists(case), n_iter=case["n_iter"], random_state=rs,
                                              scoring=make_metric(case), strategy=case["strategy"], refit=case["refit"])
     return ForecastingGridSearchCV(base, cv, grid_arg(case), scoring=make_metric(case), strategy=case["strategy"],
                                    refit=case["refit"])
@@ -517,8 +551,15 @@ def run_real(case):
         g = make_tuner(case)
     except Exception as e:
         return "construct=" + cerr(e)
+    if unpredictable(case):
+        np.random.seed(case["rs"])          # random_state=None draws from the global generator: make the run repeatable
+        _OBS.pop(json.dumps(case, sort_keys=True), None)
     outs = drive(case, "tuner", y, Y, obj=g)
     name = metric_name(case)
+    if unpredictable(case) and hasattr(g, "cv_results_"):
+        if len(_OBS) > 256:
+            _OBS.clear()
+        _OBS[json.dumps(case, sort_keys=True)] = [_plain(p) for p in g.cv_results_["params"]]
     if hasattr(g, "best_forecaster_"):
         res = g.cv_results_
         cands = "|".join(ptok(p) for p in res["params"])
@@ -610,6 +651,11 @@ def oracle(case, out):
     # (1) every candidate parameter set is evaluated (as a multiset)
     if sets is not None and sorted(ptok(p) for p in sets) != sorted(cands):
         fails.append(("cands:not-the-requested-sets", "evaluated %s, requested %s" % (sorted(cands), sorted(ptok(p) for p in sets))))
+    if unpredictable(case):
+        # the draw itself cannot be predicted: n_iter candidates, each one the distributions can produce
+        rows = sets or []
+        if len(rows) != case["n_iter"] or not all(in_support(case, p) for p in rows):
+            fails.append(("cands:not-n_iter-draws-from-the-distributions", "rows %s for n_iter=%d, distributions %r" % (cands, case["n_iter"], case["grid"][0])))
     # (2) ... on the same temporal splits
     if R["splits"] != folds_tok(ref["folds"]):
         fails.append(("splits:candidates-not-on-the-same-splits", "splits seen by the candidates: %s; cv.split(y): %s" % (R["splits"][:200], folds_tok(ref["folds"])[:200])))
@@ -628,6 +674,11 @@ def oracle(case, out):
         return fails
     if R["bparams"] != cands[best] or not _eq(_fl(R["score"]), means[best]):
         fails.append(("best:params-index-score-inconsistent", "best_index_=%d row=(%s,%r) but best_params_=%s best_score_=%s" % (best, cands[best], means[best], R["bparams"], R["score"])))
+    be = ref["entries"].get(R["bparams"])
+    if be is not None and not isinstance(be["scores"], str):
+        mb_ = None if be["mean"] is None or np.isnan(be["mean"]) else be["mean"]
+        if not _eq(_fl(R["score"]), mb_):
+            fails.append(("best:params-do-not-reproduce-best-score", "best_params_=%s: independent evaluate gives %r, best_score_=%s" % (R["bparams"], mb_, R["score"])))
     # (5) ... whose mean CV score is best in the direction the metric declares
     fin = [m for m in indep if m is not None]
     if fin and len(indep) == len(cands):
@@ -672,7 +723,7 @@ def nontrivial(case, out):
 
 
 def features(case, out):
-    f = ["fc=" + case["fc"], "search=" + case["search"], "metric=" + case["metric"], "gib=" + str(case["gib"]),
+    f = ["fc=" + case["fc"], "search=" + case["search"] + (":" + case.get("rsmode", "int") if case["search"] == "rand" else ""), "metric=" + case["metric"], "gib=" + str(case["gib"]),
          "refit=" + str(case["refit"]), "strategy=" + case["strategy"]]
     if out.startswith("cands="):
         R = parse_out(out)
@@ -844,6 +895,34 @@ def _random_case(rng):
     return case
 
 
+def _sampler_case(rng, mode):
+    """randomized search with n_iter far below the number of grid points, so the candidates are really drawn;
+    random_state an int / None (global generator) / a RandomState instance.  One fit only: a second fit draws anew."""
+    fc = rng.choice(["score", "score", "naive", "ttf"])
+    n = rng.randrange(12, 22)
+    dists = {
+        "score": {"a": [1, 2, 3, 4, 5, 6], "b": [0, 1, 2, 3]},
+        "ttf": {"f__a": [1, 2, 3, 4, 5, 6], "f__b": [0, 1, 2, 3], "t__c": [0, 1, 2]},
+        "naive": {"strategy": ["last", "mean", "drift"], "window_length": [2, 3, 4, 5], "sp": [1, 2]},
+    }[fc]
+    if fc == "score" and rng.random() < 0.3:
+        dists = dict(dists, b={"randint": [0, 4]})
+    cv = _rand_cv(rng, n)
+    if fc == "naive":
+        cv["wl"] = max(cv["wl"], 5)
+        cv["iw"] = None
+    ops = [o for i, o in enumerate(_rand_ops(rng)) if o[0] != "F"]
+    ops = [["F"]] + ops[:4]
+    case = {"fc": fc, "search": "rand", "grid": [dists], "n_iter": rng.randrange(3, 6), "rs": rng.randrange(1000), "rsmode": mode,
+            "cv": cv, "n": n, "origin": rng.choice([0, 4]), "yseed": rng.randrange(1000), "strategy": "refit",
+            "refit": rng.random() < 0.8, "fitfh": rng.choice([None, [1, 2]]), "ops": ops, "tab": {}}
+    if fc in CONTROLLED:
+        case["metric"], case["gib"] = "ctl", rng.random() < 0.4      # default_score(a, b): all (a, b) score differently
+    else:
+        case["metric"], case["gib"] = rng.choice([("mae", False), ("negmae", True)])
+    return case
+
+
 def _malformed(rng):
     base = _small_case([1.0, 0.0, 2.0], False, True, False)
     base["ops"] = [["F"], ["p", [1]], ["c"], ["u", 2, False]]
@@ -885,6 +964,9 @@ def gen_cases(tier, rng):
     # (B) structured random
     for _ in range(170 if tier == "quick" else 2200):
         cases.append(_random_case(rng))
+    # (B') randomized search whose draw cannot be predicted (random_state None / RandomState instance) next to int seeds
+    for i in range(18 if tier == "quick" else 150):
+        cases.append(_sampler_case(rng, ["none", "inst", "int"][i % 3]))
     # (C) malformed stream
     cases.extend(_malformed(rng))
     return cases
